@@ -21,6 +21,8 @@ import PydjinniModel.Props.C17
 * `malformed_config_exit`, `config_directory_or_missing_exit`   a configuration file that the decoder of its format refuses (syntax
                                   error, bytes that are no text, a document that is no mapping) ends the command line with 141, no
                                   traceback — for every format and whatever options, IDL and targets; a directory likewise, a missing file with 2
+* `unencodable_option_exit`, `overridden_file_text_configures`   a `-o` text that is not valid Unicode (undecodable byte of `argv`) ends
+                                  the command line with 141 whatever the file holds; a text of the file that an option replaces does not count
 * `front_crash_only_unrecorded`   the front end's verdict is an undocumented exception only if reading the file, or the visitor on a
                                   tree without any recorded error, or a phase after it failed with a class the outer clauses do not know
 -/
@@ -192,7 +194,8 @@ theorem never_traceback_counterexample :
             command := .generate true false ["java"] },
           { validate := fun _ => true, env := [], dotenv := [], front := .ok, kinds := [.record], genFail := fun _ => none,
             reportConfigured := false }, rfl, ?_⟩
-  simp [cliStages, exitOf, optionsStage, foldOptions, configureOutcome, configure, effective, combine, set, childKids, ofOutcome,
+  have he : encodableKids [("generate", .node [("java", .node []), ("jni", .node [])])] = true := by decide
+  simp [cliStages, exitOf, optionsStage, foldOptions, configureOutcome, configure, he, effective, combine, set, childKids, ofOutcome,
     readyOutcome, readyOf, ctsOf, genSetOf, lookup, keys, parseReady, configuredTargets, targetTable, configuredOf, generateStage, generateOutcome,
     needsCpp, readsCpp, cppReaders, allKinds, handler, exportReadsCpp, knownTarget]
 
@@ -432,7 +435,8 @@ example : ∃ inv w, wellFormed inv ∧ cliDom inv w = true ∧ exitOf (cliStage
             command := .generate true false ["cpp"] },
           { validate := fun _ => true, env := [], dotenv := [], front := .ok, kinds := [.record], genFail := fun _ => none,
             reportConfigured := false }, ⟨rfl, false, ["cpp"], rfl, by simp, by decide⟩, ?_, ?_, ?_⟩
-  all_goals simp [cliDom, cfgDom, StageResult.documented, cliStages, exitOf, eventsOf, optionsStage, foldOptions, configureOutcome,
+  all_goals have he : encodableKids [("generate", .node [("cpp", .node [])])] = true := by decide
+  all_goals simp [he, cliDom, cfgDom, StageResult.documented, cliStages, exitOf, eventsOf, optionsStage, foldOptions, configureOutcome,
     configure, effective, combine, set, childKids, ofOutcome, readyOutcome, readyOf, ctsOf, genSetOf, lookup, keys, parseReady, configuredTargets, targetTable,
     configuredOf, generateStage, generateOutcome, needsCpp, readsCpp, cppReaders, allKinds, exportReadsCpp, readyDom,
     reportStage, knownTarget]
@@ -481,5 +485,62 @@ theorem cli_option_value_verbatim (inv : Invocation) (p : List String) (v : Stri
   | .ok (p, .str v) => p == ["generate", "cpp", "out"] && v == "build/mode=debug/cpp"
   | _ => false)
 
+/-! ### texts that are not valid Unicode in `-o` options (undecodable bytes of `argv`) -/
+
+theorem foldOptions_wf (xs : List String) : ∀ (acc m : Kids), wf (.node acc) = true → foldOptions xs acc = .ok m → wf (.node m) = true := by
+  induction xs with
+  | nil => intro acc m hw h; simp only [foldOptions] at h; cases h; exact hw
+  | cons s xs ih =>
+    intro acc m hw h
+    simp only [foldOptions] at h
+    cases hp : parseOption s with
+    | error e => rw [hp] at h; cases h
+    | ok pv => rw [hp] at h; exact ih _ m (insertLeaf_wf acc pv hw) h
+
+/-- **A `-o` value (or key) that is not valid Unicode — an undecodable byte on the command line arrives as a lone surrogate — ends the
+command line with the configuration code 141 and without a traceback**, with any configuration file that decodes to a mapping or
+without one (`--config None`), whatever the file, the other options, the environment, the IDL and the targets are: the options are a
+source of the configuration like the file, and the check is made on the merge (C17 `configure_unencodable_options_refused`). -/
+theorem unencodable_option_exit (inv : Invocation) (w : World) (sfx : Suffix) (b opts : Kids) (argsOk clean : Bool) (targets : List String)
+    (htop : inv.topOk = true) (hcmd : inv.command = .generate argsOk clean targets)
+    (hcfg : inv.config = .absent ∨ (inv.config = .present sfx (.mapping b) ∧ sfx ≠ .unknown))
+    (hopts : optionsStage inv = .ok opts) (hbad : encodableKids opts = false) :
+    exitOf (cliStages inv w) = ⟨141, false⟩ := by
+  have hw : wf (.node opts) = true := foldOptions_wf inv.options [] opts (by simp [wf, wfKids, nodupKeys]) hopts
+  have hconf : configureOutcome inv w = .app 141 := by
+    simp only [configureOutcome, hopts]
+    rcases hcfg with h | ⟨h, hs⟩
+    · rw [h]; exact (configure_unencodable_options_refused w.validate w.env w.dotenv [] opts .yaml (by simp) hw hbad).2
+    · rw [h]; exact (configure_unencodable_options_refused w.validate w.env w.dotenv b opts sfx hs hw hbad).1
+  unfold cliStages
+  simp [hcmd, htop, hopts, exitOf, hconf, ofOutcome, handler]
+
+/-- … and the other way round: a text of the configuration file that is not valid Unicode does not count when a `-o` option replaces it
+— the configure stage is that of the file with the option's value in its place (C17 `overridden_file_text_not_refused`) -/
+theorem overridden_file_text_configures (inv : Invocation) (w : World) (sfx : Suffix) (g : Kids) (p : List String) (bad : Val) (v : String)
+    (hs : sfx ≠ .unknown) (hcfg : inv.config = .present sfx (.mapping (insertLeaf g (p, bad))))
+    (hp : optSafe (p, .str v) = true) (ho : inv.options = [renderOption (p, .str v)])
+    (hg : encodableKids g = true) (hk : ∀ k ∈ p, encodableStr k = true) (hv : encodableStr v = true) :
+    configureOutcome inv w =
+      (if w.validate (effective (insertLeaf g (p, .str v)) w.env w.dotenv) then .ok (effective (insertLeaf g (p, .str v)) w.env w.dotenv)
+       else .app 141) := by
+  have hne : p ≠ [] := by
+    intro e; subst e; simp [optSafe] at hp
+  have hopt := cli_option_value_verbatim inv p v hp ho
+  simp only [configureOutcome, hopt, hcfg]
+  have e : insertLeaf [] (p, Val.str v) = nestKids p (.str v) := by simp [insertLeaf, combine_nil_right _ (wf_nest p (.str v))]
+  rw [e]
+  exact overridden_file_text_not_refused w.validate w.env w.dotenv g sfx hs p bad (.str v) hne hg hk (by simpa [encodableVal] using hv)
+
+-- `--config None -o generate.cpp.out=o -o generate.cpp.namespace=a<0xff>b generate x.djinni cpp` (U+E0FF stands for the lone surrogate U+DCFF)
+#guard exitOf (cliStages { topOk := true, options := ["generate.cpp.out=o", "generate.cpp.namespace=a\uE0FFb"], config := .absent, command := .generate true false ["cpp"] }
+    { validate := fun _ => true, env := [], dotenv := [], front := .ok, kinds := [], genFail := fun _ => none, reportConfigured := false }) == ⟨141, false⟩
+-- a JSON file holds "bad\ud800ns" for generate.cpp.namespace, `-o generate.cpp.namespace=good::ns` replaces it: status 0; without the option: 141
+private def exBadFile : FileState :=
+  .present .json (.mapping [("generate", .node [("cpp", .node [("out", .leaf (.str "o")), ("namespace", .leaf (.str "bad\uE000ns"))])])])
+private def exWorld : World :=
+  { validate := fun _ => true, env := [], dotenv := [], front := .ok, kinds := [], genFail := fun _ => none, reportConfigured := false }
+#guard exitOf (cliStages { topOk := true, options := ["generate.cpp.namespace=good::ns"], config := exBadFile, command := .generate true false ["cpp"] } exWorld) == ⟨0, false⟩
+#guard exitOf (cliStages { topOk := true, options := [], config := exBadFile, command := .generate true false ["cpp"] } exWorld) == ⟨141, false⟩
 
 end Pydjinni.Sys
